@@ -781,6 +781,17 @@ macro_rules! mat_lanes {
         }
         if let Ok(g) = catch(|| -ma) { $o.emit(json!({"k": "f1", "f": $fm, "op": "neg", "ty": ty, "sp": "-m", "a": encb(&a), "got": enc(&g)})); }
         if let Ok(g) = catch(|| ma.abs()) { $o.emit(json!({"k": "f1", "f": $fm, "op": "abs", "ty": ty, "sp": "abs", "a": encb(&a), "got": enc(&g)})); }
+        // every draw: the sign-sensitive entries (+0, -0, the infinities, the smallest subnormals, a NaN) in rotating positions -- negation
+        // is a sign flip, not 0 - x, and abs clears the sign of -0
+        {
+            let sp: [$S; 7] = [0.0, -0.0, <$S>::INFINITY, <$S>::NEG_INFINITY, <$S>::from_bits(1), -<$S>::from_bits(1), <$S>::NAN];
+            let off = $r.below(7) as usize;
+            let fz: Vec<$S> = (0..$n).map(|i| sp[(i + off) % 7]).collect();
+            let z: Vec<u64> = fz.iter().map(|x| x.to_bits() as u64).collect();
+            let mz = $M::from_cols_slice(&fz);
+            if let Ok(g) = catch(|| -mz) { $o.emit(json!({"k": "f1", "f": $fm, "op": "neg", "ty": ty, "sp": "-m (signed zeros)", "a": encb(&z), "got": enc(&g)})); }
+            if let Ok(g) = catch(|| mz.abs()) { $o.emit(json!({"k": "f1", "f": $fm, "op": "abs", "ty": ty, "sp": "abs (signed zeros)", "a": encb(&z), "got": enc(&g)})); }
+        }
     }};
 }
 /// quaternion +, -, negation, scalar * and / are component-wise
